@@ -549,6 +549,12 @@ class Runner:
         skip_step = 'implicitfast-cross-tree-tendon-damping'
     dsbl_act = 'actuation' in gm.info['option']['flags']
     sens_mask = np.ones(int(tm.nsensordata), dtype=bool)
+    if 'equality' in gm.info['option']['flags'] and tm.nsensor and not FINDINGS and np.any(np.isin(np.asarray(tm.eq_type), (0, 1))):
+      # finding F31: rne_postconstraint reads efc_force[:3*nconnect] as connect forces even when the equality flag is disabled:
+      # cfrc-based sensors (force, torque, accelerometer, framelinacc/angacc use cacc/cfrc_int) are not comparable
+      for k in range(tm.nsensor):
+        if int(tm.sensor_needstage[k]) == 3:
+          sens_mask[int(tm.sensor_adr[k]):int(tm.sensor_adr[k]) + int(tm.sensor_dim[k])] = False
     if dsbl_act and tm.nsensor and not FINDINGS:
       for k in range(tm.nsensor):
         if int(tm.sensor_type[k]) == lib.enums.mjSENS_ACTUATORVEL:
@@ -656,7 +662,7 @@ ASSUMPTIONS = [
     'states within 1e-9 of a contact activation boundary or with cond(M)>1e8 are skipped (counted)',
     'sub-domains where MJX deviates from this tree\'s C engine are excluded from the random generators by construction (counted as '
     'discards / state statuses) and each deviation is probed on its minimal input on every run (vf/mjx_findings.py, reported as '
-    'KNOWN-FINDING F1 F2 F3 F4 F5 F11 F12 F13 F15 F16 F17 F23 F26 F29): '
+    'KNOWN-FINDING F1 F2 F3 F4 F5 F11 F12 F13 F15 F16 F17 F23 F26 F29 F31): '
     'Jdot*v term of connect/weld rows, elliptic cone without frictional contact slot (TypeError), acc-stage sensors without '
     'constraint rows, spring/damper disable flags, actearly, implicitfast with free bodies / damped tendons / clamped actuators']
 
